@@ -4,6 +4,7 @@ import PoaVerif.Model.Spec
 import PoaVerif.Witness.D9b
 import PoaVerif.Lemmas.Quiet
 import PoaVerif.Lemmas.Quiet2.Effect
+import PoaVerif.Lemmas.Quiet2.Gov
 /-
   C10 — pending queue integrity and uniqueness of validator identities.
 -/
@@ -212,6 +213,21 @@ theorem c10_identities_removals_partial (g : Genesis) (hw : g.wf = true) (bs : L
         (st.app.pending.map (·.op)).Nodup ∧ (st.app.pending.map (·.key)).Nodup ∧
         (∀ p ∈ st.app.pending, ∀ v ∈ st.app.vals, p.op ≠ v.op ∧ p.key ≠ v.key) := by
   obtain ⟨first, steps, h1, _, _, hg, h5⟩ := quiet_history2 g hw bs hq
+  refine ⟨first, steps, h1, ?_⟩
+  intro st hst
+  rcases List.mem_cons.mp hst with e | e
+  · rw [e]; exact G2_identities _ _ hg
+  · exact G2_identities _ _ (h5 st e).2
+
+/-- **C10, identities, when the admin's operations arrive through governance** (`QuietHistory3`, see
+    `Props.C02.c02_governance`): the conclusion of `c10_identities_removals_partial` after InitChain and after every block -/
+theorem c10_identities_governance_partial (g : Genesis) (hw : g.wf = true) (bs : List Block) (hq : QuietHistory3 g bs) :
+    ∃ first steps, run genEnv g bs = some (first, steps, RunEnd.done) ∧
+      ∀ st ∈ first :: steps,
+        (∀ v1 ∈ st.app.vals, ∀ v2 ∈ st.app.vals, (v1.op = v2.op ∨ v1.key = v2.key) → v1 = v2) ∧
+        (st.app.pending.map (·.op)).Nodup ∧ (st.app.pending.map (·.key)).Nodup ∧
+        (∀ p ∈ st.app.pending, ∀ v ∈ st.app.vals, p.op ≠ v.op ∧ p.key ≠ v.key) := by
+  obtain ⟨first, steps, h1, _, _, hg, h5⟩ := quiet_history3 g hw bs hq
   refine ⟨first, steps, h1, ?_⟩
   intro st hst
   rcases List.mem_cons.mp hst with e | e
